@@ -456,7 +456,8 @@ SPEC = PropSpec(
     floors={"R13.accessor": 6, "R13.pack": 6, "R13.range": 7, "R13.reject-type": 7, "R13.length-term": 1,
             "R13.framer-length": 1, "R13.to-bytes": 1, "R13.concat": 1, "R13.w": 1, "R13.f": 10},
     fallback={r: ("R13.w",) for r in ("R13.pack", "R13.range", "R13.concat", "R13.length-term", "R13.to-bytes",
-                                      "R13.reject-type", "R13.reject-dominates", "R13.framer-length", "R13.header-values")},
+                                      "R13.reject-type", "R13.reject-dominates", "R13.framer-length", "R13.header-values",
+                                      "R13.accessor", "R13.tiling", "R13.data-length", "R13.pack-vs-accessor")},
     explanation=("Table agreement by constant folding: the 48-bit OR-tree of create_ccsds_packet (field -> shift), "
                  "its rejecting range checks (field -> accepted closed range), the RawPacketData accessor windows "
                  "(field -> start,width), data_length, header_values and the framer's length read are extracted from "
